@@ -1,5 +1,7 @@
 mod util;
 mod p_c13;
+mod p_c34t;
+mod p_c11p;
 mod p_c01;
 mod p_c08;
 mod p_c25;
@@ -65,6 +67,8 @@ fn main() {
     util::silence_panics();
     match a[1].as_str() {
         "c13" => p_c13::run(&o),
+        "c34t" => p_c34t::run(&o),
+        "c11p" => p_c11p::run(&o),
         "c01vec" => p_c01::run_vectors(&o),
         "c01" => p_c01::run(&o),
         "c08" => p_c08::run(&o),
